@@ -643,6 +643,12 @@ func c10Recover(c *Ctx, rule string) {
 		for _, g := range recoverers[fn] {
 			region = append(region, Region(g)...)
 		}
+		if _, hands := returnsRecovered(fn); hands {
+			// the recovered value is handed back as data: the callers convert it
+			for _, s := range sitesOf(fn) {
+				region = append(region, Region(s.Parent())...)
+			}
+		}
 		for _, f := range region {
 			AllInstrs(f, func(i ssa.Instruction) {
 				switch x := i.(type) {
@@ -658,6 +664,12 @@ func c10Recover(c *Ctx, rule string) {
 				case *ssa.Store:
 					if Desc(x.Val) == `"<nil>"` {
 						okNil = true
+					}
+				case *ssa.Return:
+					for _, rv := range x.Results {
+						if sv, isS := ConstString(rv); isS && sv == "<nil>" {
+							okNil = true
+						}
 					}
 				}
 			})
